@@ -31,6 +31,28 @@ def sweep(g: grid.Grid[Any, Any], n: int):
 @tweezer
 def early(g: grid.Grid[Any, Any], n: int):
     action.move(g)
+
+# kernels of a user-side extension of the tweezer group, and a plain kernel that receives one of them as a value
+from kirin.dialects import vmath
+vtweezer = tweezer.add(vmath)
+
+@vtweezer
+def slide(xs: ilist.IList[float, Any], d: float):
+    action.set_loc(grid.from_positions(xs, [0.0]))
+    action.turn_on(action.ALL, action.ALL)
+    action.move(grid.from_positions(vmath.offset(xs, d), [0.0]))
+    action.turn_off(action.ALL, action.ALL)
+
+@vtweezer
+def slide_from_here(xs: ilist.IList[float, Any], d: float):
+    action.move(grid.from_positions(vmath.offset(xs, d), [0.0]))
+
+@tweezer
+def pick_and_apply(f, xs: ilist.IList[float, Any], d: float):
+    action.set_loc(grid.from_positions(xs, [0.0]))
+    action.turn_on(action.ALL, action.ALL)
+    f(xs, d)
+    action.turn_off(action.ALL, action.ALL)
 '''
 
 
@@ -61,6 +83,23 @@ def budget_stream(ctx, spec):
                       "call": [mt.sym_name, args[1]]},
                      f"call {k + 1} of a history of long traces on one instance differs from a fresh instance: reused={got[:120]} fresh={want[:120]}")
             break
+    # kernels written against an extension of the tweezer group, mixed with plain ones: whatever a call of the one kind does
+    # to the instance, the next call behaves as on a fresh instance
+    from kirin.dialects import ilist as _il
+    xs = _il.IList([0.0, 2.0])
+    it3 = TraceInterpreter(spec)
+    hist = [(mod.slide, (xs, 1.0)), (mod.pick_and_apply, (mod.slide_from_here, xs, 1.0)), (mod.sweep, (g, 2)),
+            (mod.early, (g, 1)), (mod.pick_and_apply, (mod.slide_from_here, xs, 0.5)), (mod.slide, (xs, 2.0)), (mod.sweep, (g, 3))]
+    for k, (mt, args) in enumerate(hist):
+        got, want = outcome(it3, mt, args), outcome(TraceInterpreter(spec), mt, args)
+        ctx.count("extended_group_history_calls")
+        ctx.count("extended_group_call_" + want.split(" ")[0])
+        if got != want:
+            ctx.fail({"source": BUDGET_SRC[len(T.PRELUDE):],
+                      "history": [m.sym_name for m, _ in hist[:k + 1]]},
+                     f"call {k + 1} ({mt.sym_name}) of a history mixing kernels of an extended tweezer group with plain ones differs "
+                     f"from a fresh instance: reused={got[:120]} fresh={want[:120]}")
+            break
     # a call made from a stack deeper than the instance's recursion limit fails before the kernel starts
     limit0 = sys.getrecursionlimit()
     try:
@@ -86,6 +125,12 @@ def budget_stream(ctx, spec):
                 break
     finally:
         sys.setrecursionlimit(limit0)
+
+
+def err_text(e) -> str:
+    """exception type and message, without memory addresses"""
+    import re
+    return type(e).__name__ + ": " + re.sub(r"0x[0-9a-fA-F]+", "0x", str(e))
 
 
 def run(ctx):
@@ -146,9 +191,19 @@ def run(ctx):
                 results.append((live, copy.deepcopy(live)))
                 shown.append("(ok " + T.canon_path(p) + ")")
                 r = "ok " + T.canon_path(p)
-            except Exception:  # noqa: BLE001
+            except Exception as e1:  # noqa: BLE001
                 shown.append("err")
                 r = "err"
+                # the failure itself is the call's result: same exception type and text as on a fresh instance
+                try:
+                    TraceInterpreter(spec).run_trace(c.mt, c.rargs, {})
+                    e0 = None
+                except Exception as e2:  # noqa: BLE001
+                    e0 = e2
+                ctx.count("failing_calls_compared_with_fresh_failure")
+                if e0 is not None and err_text(e0) != err_text(e1):
+                    ctx.fail(case, f"call {len(shown)} of a history on one instance fails differently than on a fresh instance: "
+                                   f"reused={err_text(e1)[:200]} fresh={err_text(e0)[:200]}")
             if r != c.impl:
                 ctx.fail(case, f"call {len(shown)} of a history on one instance differs from a fresh instance: "
                                f"reused={r[:300]} fresh={c.impl[:300]}")
